@@ -1,36 +1,38 @@
 (* C14 - the tie between Model/SessLock.v and the CURRENT text of sfilesys.go that does not depend on
-   any run: the translator (harness/cmd/gen/sesslock.go) re-extracts, before every `make`, the
-   lock-protocol skeleton of every function the model transcribes - branch structure, returns, defers,
-   Lock/Unlock, sync.Map calls, helper calls, FileSys/Dirent/File/AuthFile calls, SFid field reads and
-   writes, in source order - into Gen/GenSessLock.v.  Below is the skeleton the programs of
-   Model/SessLock.v were transcribed from (source as of /repo e9fb232).  The lemma fails to compile as soon
-   as the source's skeleton differs: an added early return, a moved or dropped defer, a new table or FileSys
-   action, a new field write.  Then: re-read the function, re-transcribe its program, re-run
-   [wf_prog_of], and replace the function's line here by the generated one. *)
+   any run.  Before every `make` the translator (harness/cmd/gen/sesslock.go) re-derives, through go/types,
+   for every exported method of the session type the SET of event traces over all syntactic paths, with all
+   same-package helpers and closures inlined: sync.Map calls, Mutex Lock/Unlock (by variable, numbered by
+   first appearance), reads/writes of the fields of the mutex-carrying struct, calls through the package's
+   exported interfaces (FileSys, Dirent, File, AuthFile), deferred calls at the return.  Gen/GenSessLock.v
+   publishes per method the number of traces and the SHA-256 of their sorted text (and the traces in a
+   comment).  Below are the values for the source the programs of Model/SessLock.v were transcribed from
+   (/repo e9fb232; the traces themselves: design/C14-skeleton.txt).
+
+   The lemma fails to compile as soon as some path's event sequence changes: a return added between a Lock
+   and its defer, a moved or dropped Unlock, another table or FileSys action, a field access moved out of
+   the lock, TryLock for Lock.  It does NOT fail for renames of anything unexported, re-ordered
+   declarations, declaration style, helpers extracted or inlined, comments (neutral/a1..c6).  When it fails:
+   diff the comment of Gen/GenSessLock.v against design/C14-skeleton.txt, re-read the function,
+   re-transcribe its program, re-run [wf_prog_of], then replace the method's line here. *)
 From Coq Require Import List String.
 From P9 Require Import Gen.GenSessLock.
 Import ListNotations.
 Open Scope string_scope.
 
-Definition transcribed_skeleton : list (string * list string) :=
-  [ ("Stop", ["for{"; "func{"; "if{"; "return"; "}"; "lock:ref"; "refs:CompareAndDelete"; "get:Ent"; "if{"; "call:delRefAction"; "}"; "unlock:ref"; "return"; "}"; "refs:Range"; "}"; "return"]);
-    ("getRef", ["if{"; "return"; "}"; "refs:Load"; "if{"; "return"; "}"; "lock:ref"; "get:Ent"; "if{"; "unlock:ref"; "return"; "}"; "return"]);
-    ("link", ["set:Ent"]);
-    ("newRef", ["if{"; "return"; "}"; "lock:ref"; "refs:LoadOrStore"; "if{"; "return"; "}"; "return"]);
-    ("delRef", ["refs:Load"; "if{"; "return"; "}"; "lock:ref"; "defer-unlock:ref"; "refs:CompareAndDelete"; "if{"; "return"; "}"; "get:Ent"; "if{"; "return"; "}"; "call:delRefAction"; "return"]);
-    ("delRefAction", ["if{"; "get:Ent"; "iface:Dirent.Remove"; "}"; "else{"; "get:Ent"; "iface:Dirent.Clunk"; "}"; "set:Ent"; "call:combine_errors"; "return"]);
-    ("Auth", ["if{"; "return"; "}"; "iface:FileSys.RequireAuth"; "if{"; "return"; "}"; "call:newRef"; "if{"; "return"; "}"; "defer-unlock:aref"; "iface:FileSys.Auth"; "if{"; "refs:Delete"; "return"; "}"; "set:File"; "return"]);
-    ("Attach", ["if{"; "call:getRef"; "if{"; "return"; "}"; "defer-unlock:aref"; "get:File"; "if{"; "return"; "}"; "get:File"; "if{"; "return"; "}"; "iface:AuthFile.Success"; "if{"; "return"; "}"; "}"; "call:newRef"; "if{"; "return"; "}"; "defer-unlock:ref"; "iface:FileSys.Attach"; "if{"; "refs:Delete"; "return"; "}"; "call:link"; "iface:Dirent.Qid"; "return"]);
-    ("Clunk", ["call:delRef"; "return"]);
-    ("Remove", ["call:delRef"; "return"]);
-    ("Walk", ["if{"; "return"; "}"; "call:getRef"; "if{"; "return"; "}"; "defer{"; "unlock:ref"; "if{"; "refs:Delete"; "unlock:newref"; "}"; "}"; "if{"; "call:newRef"; "if{"; "return"; "}"; "}"; "if{"; "if{"; "return"; "}"; "get:Ent"; "iface:Dirent.Walk"; "call:EnsureNonNil"; "if{"; "return"; "}"; "}"; "else{"; "get:Ent"; "call:IsDir"; "if{"; "return"; "}"; "get:Ent"; "iface:Dirent.Walk"; "call:EnsureNonNil"; "if{"; "return"; "}"; "if{"; "return"; "}"; "}"; "if{"; "return"; "}"; "if{"; "get:Ent"; "iface:Dirent.Clunk"; "set:File"; "set:Mode"; "}"; "else{"; "unlock:ref"; "}"; "call:link"; "return"]);
-    ("Read", ["call:getRef"; "if{"; "return"; "}"; "defer-unlock:ref"; "get:File"; "if{"; "return"; "}"; "get:Mode"; "if{"; "return"; "}"; "get:File"; "iface:File.Read"; "return"]);
-    ("Write", ["call:getRef"; "if{"; "return"; "}"; "defer-unlock:ref"; "get:File"; "if{"; "return"; "}"; "get:Mode"; "get:Mode"; "if{"; "return"; "}"; "get:File"; "iface:File.Write"; "return"]);
-    ("Open", ["call:getRef"; "if{"; "return"; "}"; "defer-unlock:ref"; "call:openLocked"; "if{"; "return"; "}"; "get:Ent"; "iface:Dirent.Qid"; "get:File"; "iface:File.IOUnit"; "return"]);
-    ("openLocked", ["get:File"; "if{"; "return"; "}"; "get:Ent"; "call:IsDir"; "if{"; "get:Ent"; "iface:Dirent.OpenDir"; "if{"; "call:EnsureNonNil"; "}"; "if{"; "return"; "}"; "call:NewReaddir"; "}"; "else{"; "get:Ent"; "iface:Dirent.Open"; "call:EnsureNonNil"; "if{"; "return"; "}"; "}"; "set:File"; "set:Mode"; "return"]);
-    ("Create", ["func{"; "return"; "}"; "if{"; "callvar:fail"; "return"; "}"; "call:getRef"; "if{"; "callvar:fail"; "return"; "}"; "defer-unlock:ref"; "get:Ent"; "call:IsDir"; "if{"; "callvar:fail"; "return"; "}"; "get:Ent"; "iface:Dirent.Create"; "call:EnsureNonNil"; "call:EnsureNonNil"; "if{"; "callvar:fail"; "return"; "}"; "call:IsDir"; "if{"; "call:openLocked"; "if{"; "refs:Delete"; "set:File"; "set:Mode"; "call:link"; "call:delRefAction"; "callvar:fail"; "return"; "}"; "get:File"; "}"; "set:File"; "set:Mode"; "call:link"; "set:File"; "set:Mode"; "get:Ent"; "iface:Dirent.Qid"; "iface:File.IOUnit"; "return"]);
-    ("Stat", ["call:getRef"; "if{"; "return"; "}"; "defer-unlock:ref"; "get:Ent"; "iface:Dirent.Stat"; "return"]);
-    ("WStat", ["call:getRef"; "if{"; "return"; "}"; "defer-unlock:ref"; "get:Ent"; "iface:Dirent.WStat"; "return"]) ].
+Definition transcribed_skeleton : list (string * nat * string) :=
+  [ ("Attach", 51%nat, "78d381eef8348acf1d0a6d3cdc981433873c4ef781ede7663801c4adabe3e271");
+    ("Auth", 9%nat, "0be1c8fb58f7b5a66bfc4ca71440b745abd009a7339e1b461a1763dc0de26574");
+    ("Clunk", 5%nat, "6db9cb4cb8ae18f04bb8db6f8240fd15e201923a26053bdafbdcb3d33890f7db");
+    ("Create", 76%nat, "c7ebecf40f76c05d116d284ca56b2e4b39e1336d3a700e34b5f374e74c157caa");
+    ("Open", 44%nat, "07ff85e22efecf01a35bc64c49c9e7f2f81847217b67742c37f5f002efc943e4");
+    ("Read", 16%nat, "a760c702daf7d2d519ee15f5e5f89c0265556b2cf373d55842036166290b8568");
+    ("Remove", 5%nat, "6db9cb4cb8ae18f04bb8db6f8240fd15e201923a26053bdafbdcb3d33890f7db");
+    ("Stat", 8%nat, "1997820f3e74ed655b1532021cfd15719e66aba410b0d0ea3dd9f12e59912ed4");
+    ("Stop", 5%nat, "34194af991a68d43985b39c9c2961b19f2e27fa2c2d43f30d6ad2b0a526be0f6");
+    ("Version", 1%nat, "85e4aea19de2d285c91b909a8dcd3d895ad511f5c888998471db1734c996c1ee");
+    ("WStat", 8%nat, "a6d12da1ada1507cd10e386e8ca025f6b1eee81e7ea97da3a04a2e871d9c24ac");
+    ("Walk", 163%nat, "26ccca3e545123cfcfc179959375a00984af16762123c8b44c721a3fb4ed323d");
+    ("Write", 16%nat, "083ef0f91d5376f292d2a13350d6c776abb8d19a06f5c3967f78e11b0f87c96d") ].
 
 Lemma skeleton_unchanged : sesslock_skeleton = transcribed_skeleton.
 Proof. reflexivity. Qed.
